@@ -3,9 +3,10 @@ convex combination of sample i and ONE partner with ONE weight, used for the dat
 
 Datasets are id-encoded: entry `idx` of sample k is (k+1)*8 + ravel(idx in k's own shape)/16 (exact in float32), the
 label of sample k identifies k where the class count allows it.  Partner and weight are decoded from what the real code
-returned; the partner the wrapped dataset was asked for is observed through the dataset's access log.  Every
-np.random.default_rng(...) call of the wrapper is replaced (module attribute `np` of kd_mix_wrapper, for the duration of
-one case) by a recording generator, so the seed argument and all draws are known and fed to the Coq model.
+returned; the partner the wrapped dataset was asked for is observed through the dataset's access log.  Every generator
+the wrapper creates -- np.random.default_rng(seed + idx) with a seed, one GlobalRng() per request without (it draws from
+the process-global numpy generator) -- is replaced (module attributes `np` and `GlobalRng` of kd_mix_wrapper, for the
+duration of one case) by a recording generator, so the seed argument and all draws are known and fed to the Coq model.
 """
 import math
 import random
@@ -28,11 +29,16 @@ TRUSTED = [
     "float32 arithmetic is not modelled: model and spec compute over Q on the exact input values; comparison with the "
     "real output uses tolerance 2e-3 on data entries (magnitude <= 100) and 1e-5 on label entries",
     "generator contract: random() in [0,1), integers(n) in [0,n), beta(a,a) in [0,1]; a generator is a function of "
-    "its seed argument (seeded_deterministic)",
+    "its seed argument (seeded_deterministic); without a seed the wrapper creates one GlobalRng per request "
+    "(kappadata.utils.global_rng: np.random.random / randint / beta of the process-global generator) -- the model's "
+    "oracle hands out the draws of the k-th generator of a request whatever its source; rng kind 'global' runs the REAL "
+    "GlobalRng under np.random.seed(s) (recorded through a transparent wrapper, then twice unrecorded): equal global "
+    "numpy state gives equal samples, torch / random global state is untouched, numpy's advances",
     "torch.nn.functional.pad (constant mode, flat padding list starting at the last dimension), index_select, "
     "one_hot, in-place mul_/add_ behave as documented (Model.torch_pad etc.; validated entry by entry on every case)",
     "harness/c11.py: id-encoded datasets with an access log (incl. which context object every call was handed), "
-    "recording / scripted generators injected by replacing the module attribute `np` of kd_mix_wrapper, decoding of "
+    "recording / scripted generators injected by replacing the module attributes `np` (default_rng) and `GlobalRng` "
+    "of kd_mix_wrapper, decoding of "
     "partner and weight; the context model is abstract: a load handed the request's dictionary may record into it, "
     "the harness dataset / recording transform record the index of the sample they see",
 ]
@@ -64,7 +70,7 @@ ASSUMPTIONS = [
 RULE = ("n in 1..7 samples of rank 1..3 with dims 1..5, equal shapes or independently drawn shapes per sample; labels: "
         "int ids / computed from the index / 0-dim tensors / stored float one-hot rows / stored soft rows / 1-d long "
         "one-hot; mixup_p in {0.3, 0.5, 1.0} (+ cutmix_p splits), alpha 0.1..5, unify mode None / pad_or_cut_end / "
-        "unknown; seed set (0..10^6) or None; all orders of subsets of {x, class, index} (+ an unknown item); idx in "
+        "unknown; seed set (0..10^6) or None (then also with the real GlobalRng under np.random.seed); all orders of subsets of {x, class, index} (+ an unknown item); idx in "
         "-n..n-1; draws from numpy default_rng or a scripted generator injecting edge draws (apply == total_p, "
         "apply == cutmix_p, partner == i / 0 / n-1, lambda 0 / 1); non-trivial = returned and a partner was loaded; "
         "stacks: a ctx-recording XTransformWrapper and/or a real LabelSmoothingWrapper below the mix wrapper, an "
@@ -166,7 +172,11 @@ class _RandomProxy:
         return getattr(self._npr, name)
 
 
-def make_factory(case, events, norm_idx):
+def make_factory(case, events, norm_idx, real_global=None):
+    """-> (stand-in for np.random.default_rng, stand-in for the class GlobalRng).  Seeded requests create their
+    generator with default_rng(seed + idx); unseeded requests create one GlobalRng() per request, which draws from the
+    process-global numpy generator.  rng kind "global": the recording generator wraps an instance of the REAL GlobalRng
+    (the case seeds np.random itself); otherwise a per-case reproducible inner generator stands in for it."""
     import numpy as np
     kind, rseed = case["rng"]
     tp = total_p_of(case)
@@ -183,12 +193,19 @@ def make_factory(case, events, norm_idx):
             # an unseeded generator: fresh entropy in reality; here reproducible per case, different per call
             key = rseed * 1000 + counter[0]
             counter[0] += 1
-            inner = np.random.default_rng(key) if kind == "numpy" else ScriptRng(key, edges, norm_idx)
+            inner = np.random.default_rng(key) if kind != "script" else ScriptRng(key, edges, norm_idx)
         else:
-            inner = np.random.default_rng(seed) if kind == "numpy" else ScriptRng(int(seed) * 7919 + rseed, edges, norm_idx)
+            inner = np.random.default_rng(seed) if kind != "script" else ScriptRng(int(seed) * 7919 + rseed, edges, norm_idx)
         return Spy(inner, None if seed is None else int(seed), events)
 
-    return factory
+    def global_factory(*a, **k):
+        if a or k:
+            raise TypeError("GlobalRng called with arguments")
+        if kind == "global" and real_global is not None:
+            return Spy(real_global(), None, events)
+        return factory(None)
+
+    return factory, global_factory
 
 
 # ---------------------------------------------------------------------------
@@ -442,7 +459,12 @@ def run_impl(case):
         return out, items, ctx
 
     orig_np = M.np
-    M.np = NpProxy(orig_np, make_factory(case, events, norm_idx))
+    orig_global = getattr(M, "GlobalRng", None)
+    f_default, f_global = make_factory(case, events, norm_idx, orig_global)
+    M.np = NpProxy(orig_np, f_default)
+    if orig_global is not None:
+        M.GlobalRng = f_global           # the name the wrapper looks up when it has no seed
+    real_global = case["rng"][0] == "global" and case["seed"] is None and orig_global is not None
     out = None
     try:
         try:
@@ -450,10 +472,23 @@ def run_impl(case):
         except Exception as e:
             obs["result"] = classify(e, "ModeWrapper")
             return obs
+        if real_global:
+            import random as _random
+            np.random.seed(case["rng"][1] % (2 ** 32))
+            state_torch, state_random = torch.get_rng_state().clone(), _random.getstate()
+            state_numpy = np.random.get_state()
         try:
             out = mw[idx]
         except Exception as e:
             obs["result"] = classify(e, "getitem")
+        if real_global:
+            drew = any(c[0] == "rng" and c[1].trace for c in events)
+            obs["global"] = {
+                "torch_untouched": bool(torch.equal(state_torch, torch.get_rng_state())),
+                "random_untouched": state_random == _random.getstate(),
+                "numpy_consumed": (not drew) or np.random.get_state()[2] != state_numpy[2]
+                                  or bool((np.random.get_state()[1] != state_numpy[1]).any()),
+            }
         obs["calls"] = parse_calls(events)
         obs["mutated"] = mutated(ds, pristine)
         if obs["result"] != "ok":
@@ -500,6 +535,27 @@ def run_impl(case):
             obs["mutated"] = mutated(ds, pristine)
     finally:
         M.np = orig_np
+        if orig_global is not None:
+            M.GlobalRng = orig_global
+    # the real GlobalRng without any recording: equal global numpy state gives equal results (twice), equal to the
+    # recorded run; torch / random global state is not consumed
+    if real_global and obs["result"] == "ok":
+        import random as _random
+        runs = []
+        for _ in range(2):
+            np.random.seed(case["rng"][1] % (2 ** 32))
+            st_t, st_r = torch.get_rng_state().clone(), _random.getstate()
+            _, its, _ = unpack_out(ModeWrapper(dataset=top, mode=mode, return_ctx=rc)[idx])
+            runs.append(its)
+            if not torch.equal(st_t, torch.get_rng_state()):
+                obs["global"]["torch_untouched"] = False
+            if st_r != _random.getstate():
+                obs["global"]["random_untouched"] = False
+        same = True
+        for its in runs:
+            for a, b in zip(items, its):
+                same = same and (torch.equal(a, b) if isinstance(a, torch.Tensor) else a == b)
+        obs["global"]["same_state_same_result"] = bool(same)
     # transparency of the spy: the same request with numpy's own default_rng (seeded cases, numpy draws)
     if obs["result"] == "ok" and case["seed"] is not None and case["rng"][0] == "numpy" and not case.get("alias_x", False):
         _, items2, _ = unpack_out(ModeWrapper(dataset=top, mode=mode, return_ctx=rc)[idx])
@@ -742,6 +798,14 @@ def oracle(case, obs):
         return f"sample {i}: no (partner, weight) the dataset was asked for explains the returned items: {msg}"
     if msg:
         return msg
+    if case["rng"][0] == "global" and case["seed"] is None and "global" in obs:
+        g = obs["global"]
+        if not g.get("same_state_same_result", True):
+            return "no seed: two requests under the same np.random.seed(...) state returned different samples"
+        if not g["torch_untouched"] or not g["random_untouched"]:
+            return f"no seed: the request consumed global random state other than numpy's ({g})"
+        if not g["numpy_consumed"]:
+            return "no seed: draws were made but the process-global numpy generator did not advance"
     # the returned context describes the requested sample
     for name, c in (("", obs.get("ctx")), (" (through the DataLoader)", obs.get("loader_ctx"))):
         for k, v in (c or {}).items():
@@ -931,6 +995,8 @@ def gen_case(rng, big=False, tier="quick"):
         case["tokens"] = case["tokens"] + ["aux0"]
     if rng.random() < 0.04:
         case["alias_x"] = True
+    if case["seed"] is None and rng.random() < 0.12:
+        case["rng"] = ["global", case["rng"][1]]      # the real GlobalRng under np.random.seed(...)
     # return_ctx, wrapper stacks around the mix wrapper
     case["rc"] = rng.random() < 0.5
     stack = {}
@@ -1039,6 +1105,9 @@ def features(case, obs):
     yield "p=%s/%s" % (case["mixup_p"], case["cutmix_p"])
     yield "mode=" + " ".join(case["tokens"])
     yield "rng=" + case["rng"][0]
+    if "global" in obs:
+        yield "real GlobalRng: " + ("reproducible under np.random.seed, torch/random untouched"
+                                    if all(obs["global"].values()) else str(obs["global"]))
     yield "result=" + obs.get("result", "harness_exception")[:40]
     if case["idx"] < 0:
         yield "negative idx"
